@@ -65,6 +65,9 @@ def budgets(tier: str) -> dict:
 
 
 def enumerate_cases(tier: str):
+    # real worker threads, registry changing while saves run (the only cases of this module off the virtual loop)
+    for changes in (1, 5, 20):
+        yield {"kind": "threads", "changes": changes}
     # the body leaves with every exception class of the library (and some others): the exit duties do not depend on which
     for kind in KINDS:
         for name in BODY_EXCS:
@@ -95,6 +98,15 @@ def enumerate_cases(tier: str):
             for k, T in ((0, None), (9, None), (2, 901)):
                 yield {"kind": kind, "fault": fault, "file": "registry", "k": k, "T": T, "mutate": True, "late_change": True}
                 yield {"kind": kind, "fault": fault, "file": "missing", "k": k, "T": T, "mutate": "in-place", "late_change": True, "reader_task": True}
+    # the registry file is called something else (no extension, another extension, dots in the name)
+    from vf.props.c15 import FILE_NAMES
+
+    for name in FILE_NAMES[2:] + ("gateway.1", "nodes.db"):
+        for kind in ("plain", "stream"):
+            for initial in ("registry", "missing"):
+                for k, T in ((0, None), (9, None), (2, 901)):
+                    yield {"kind": kind, "fault": "none", "file": initial, "k": k, "T": T, "mutate": True, "file_name": name}
+                yield {"kind": kind, "fault": "none", "file": initial, "k": 2, "T": 901, "mutate": "in-place", "file_name": name, "reenter": True}
     # every node is removed during the session: the file follows
     for kind in KINDS:
         for initial in ("registry", "big", "missing"):
@@ -182,7 +194,7 @@ def strategy(tier: str):
             "between_edit": st.sampled_from((False, False, True)),
             "eager_tasks": st.sampled_from((False, False, False, True)),
         }
-    ).filter(lambda c: not (c["kind"] == "mqtt" and c["fault"] == "connect-once")).filter(lambda c: c["kind"] == "plain" or (c["kind"] == "plain-nosuspend" and c["fault"] not in ("connect-timeout", "disconnect-hang")) or ("disconnect" not in c["fault"] and c["fault"] != "connect-timeout"))
+    ).filter(lambda c: c["kind"] != "threads").filter(lambda c: not (c["kind"] == "mqtt" and c["fault"] == "connect-once")).filter(lambda c: c["kind"] == "plain" or (c["kind"] == "plain-nosuspend" and c["fault"] not in ("connect-timeout", "disconnect-hang")) or ("disconnect" not in c["fault"] and c["fault"] != "connect-timeout"))
 
 
 class BodyError(Exception):
@@ -320,10 +332,62 @@ def _make_transport(kind: str, fault: str):
     return c18.make_mqtt_for_lifecycle(fault)
 
 
-def run_case(case: dict) -> Outcome:
-    kind, fault, initial, k, T = case["kind"], case["fault"], case["file"], case["k"], case["T"]
+def _run_threads(case: dict) -> Outcome:
+    """Real worker threads (no inline executor): the registry keeps changing on the loop thread while saves are under way. Reading a
+    node attribute takes a moment when done from a worker thread, so whatever the library does off the loop thread overlaps with
+    the changes. Oracle: the context is left without an error and the file equals the registry at exit."""
+    import threading
+    import time as _time
+
     scratch = tempfile.mkdtemp(prefix="vf-c16-", dir=c13.SCRATCH_BASE)
     path = os.path.join(scratch, "persistence.json")
+    classes = ("threads", f"changes={case['changes']}")
+    main_thread = threading.current_thread()
+
+    class SlowOffLoopNode(Node):
+        @property
+        def sketch_name(self):  # type: ignore[override]
+            if threading.current_thread() is not main_thread:
+                _time.sleep(0.02)
+            return self.__dict__.get("_sketch_name", "")
+
+        @sketch_name.setter
+        def sketch_name(self, value) -> None:
+            self.__dict__["_sketch_name"] = value
+
+    async def go() -> Outcome | None:
+        gateway = Gateway(PlainTransport("none"), Config(persistence_file=path))
+        for i in range(1, 6):
+            gateway.nodes[i] = SlowOffLoopNode(i, 17, "2.0")
+        try:
+            async with gateway:
+                for step in range(case["changes"]):
+                    gateway.nodes[50 + step] = SlowOffLoopNode(50 + step, 17, "2.0")  # a node presents itself
+                    await asyncio.sleep(0.005)
+                final = json.loads(json.dumps(env.snapshot(gateway.nodes)))
+        except BaseException as err:  # noqa: BLE001
+            return fail(f"threads:exit-raised-{type(err).__name__}", f"nodes kept presenting themselves while saves ran; leaving the context raised {err!r}", classes=classes)
+        with open(path, encoding="utf-8") as fil:
+            doc = json.loads(fil.read() or "{}")
+        if doc != final:
+            return fail("threads:final-save-missing", f"after exit the file holds nodes {sorted(doc)}; the registry held {sorted(final)}", classes=classes)
+        return None
+
+    try:
+        bad = env.run(go())
+    finally:
+        shutil.rmtree(scratch, ignore_errors=True)
+    if bad is not None:
+        return bad
+    return Outcome(ok=True, nontrivial=True, classes=classes)
+
+
+def run_case(case: dict) -> Outcome:
+    if case.get("kind") == "threads":
+        return _run_threads(case)
+    kind, fault, initial, k, T = case["kind"], case["fault"], case["file"], case["k"], case["T"]
+    scratch = tempfile.mkdtemp(prefix="vf-c16-", dir=c13.SCRATCH_BASE)
+    path = os.path.join(scratch, case.get("file_name") or "persistence.json")
     if initial == "empty":
         open(path, "w").close()
     elif initial == "registry":
